@@ -110,6 +110,26 @@ def watermark_regressions(f, g, rd, loops):
       if not (n.kind == 'stmt' and isinstance(n.ast, ast.Assign) and len(n.ast.targets) == 1 and isinstance(n.ast.targets[0], ast.Subscript)):
         continue
       tgt, val = n.ast.targets[0], n.ast.value
+      if isinstance(val, ast.Call) and len(val.args) == 2 and not val.keywords and isinstance(tgt.value, ast.Name) and norm(val.func).split('.')[-1][:1].isupper():
+        # blocks[-1] = Window(blocks[-1].first, elem.last): the same shape with a value type instead of a pair
+        slot = norm(ast.Subscript(value=tgt.value, slice=tgt.slice, ctx=ast.Load()))
+        first_, end_ = val.args
+        if slot in norm(first_):
+          from_elem_ = any(isinstance(x, ast.Name) and x.id in elem for x in ast.walk(end_))
+          uses_old_ = slot in norm(end_)
+          is_max_ = isinstance(end_, ast.Call) and norm(end_.func) in ('max', 'np.maximum') and uses_old_
+          guarded_ = False
+          par_ = getattr(n.ast, '_parent', None)
+          while par_ is not None and par_ is not loop.ast:
+            if isinstance(par_, ast.If) and isinstance(par_.test, ast.Compare) and slot in norm(par_.test) \
+                and any(('last' in norm(x).lower() or 'end' in norm(x).lower()) and any(isinstance(y, ast.Name) and y.id in elem for y in ast.walk(x))
+                        for x in [par_.test.left] + list(par_.test.comparators)) \
+                and not any('first' in norm(x).lower() and any(isinstance(y, ast.Name) and y.id in elem for y in ast.walk(x)) for x in [par_.test.left] + list(par_.test.comparators)):
+              guarded_ = True
+            par_ = getattr(par_, '_parent', None)
+          if from_elem_ and not is_max_ and not guarded_ and not uses_old_:
+            out.append((loop, slot, n))
+        continue
       if not (isinstance(val, (ast.Tuple, ast.List)) and len(val.elts) == 2 and isinstance(tgt.value, ast.Name)):
         continue
       blocks = tgt.value.id
@@ -206,11 +226,19 @@ def r_expand(repo, rep):
                     'expand_time_windows returns the accumulated list `%s` without de-duplicating it: days covered by overlapping or repeated windows appear more than once'
                     % norm(rv), f.loc(rets[0].ast))
     else:
-      wm = watermark_regressions(f, g, rd, loops)
-      for (loopn, var, node) in wm:
-        rep.violation('R1/dedup', f.qualname, norm(node.ast),
+      wm = [(f, x_) for x_ in watermark_regressions(f, g, rd, loops)]
+      # helpers the function hands its windows to (merge / normalise steps that were not inlined)
+      names_ = {x_.attr if isinstance(x_, ast.Attribute) else x_.id for x_ in ast.walk(f.node) if isinstance(x_, (ast.Attribute, ast.Name))}
+      for q_ in sorted(getattr(repo, 'residual_helpers', ())):
+        h_ = repo.functions.get(q_)
+        if h_ is not None and h_.name in names_ and h_.module is f.module:
+          rep.fn(h_)
+          gh_ = cfgmod.CFG(h_.node)
+          wm += [(h_, x_) for x_ in watermark_regressions(h_, gh_, dataflow.Reaching(gh_), [n_ for n_ in gh_.nodes if n_.kind == 'for'])]
+      for (fn_, (loopn, var, node)) in wm:
+        rep.violation('R1/dedup', fn_.qualname, norm(node.ast),
                       'expand_time_windows does not de-duplicate its result and relies on the running marker `%s` to skip days already covered, but `%s` can move the marker backwards '
-                      '(a window nested in an earlier, longer one): days covered by a later overlapping window are then listed twice' % (var, norm(node.ast)), f.loc(node.ast))
+                      '(a window nested in an earlier, longer one): days covered by a later overlapping window are then listed twice or dropped' % (var, norm(node.ast)), fn_.loc(node.ast))
       rep.undecided('R1/dedup', f.name, 'return value %s is not a recognised de-duplicating construct; the algorithm is not decided statically' % norm(rv)[:80], f.loc(rv))
     return
   rep.ok('R1/dedup', 'returned list is de-duplicated: %s' % norm(rv), loc=f.loc(rv))
